@@ -120,6 +120,25 @@ Theorem Base_bires_resultant : forall a b : seq (seq Z),
 Proof. exact: bires_resultant. Qed.
 Print Assumptions Base_bires_resultant.
 
+(* the slow reference (Laplace expansion pdet, bires_ref) is the determinant / the same resultant; hence the two
+   executable resultants agree on all operands with non-zero leading coefficients *)
+Theorem Base_pdet_det : forall (n : nat) (m : seq (seq (seq Z))),
+  size m = n -> all (fun r : seq (seq Z) => size r == n) m ->
+  Poly (pdet n m) = \det (\matrix_(i < n, j < n) (Poly (nth [::] (nth [::] m i) j) : {poly Z})).
+Proof. exact: pdet_det. Qed.
+Print Assumptions Base_pdet_det.
+
+Theorem Base_bires_ref_resultant : forall a b : seq (seq Z),
+  Poly (last [::] a) != 0 :> {poly Z} -> Poly (last [::] b) != 0 :> {poly Z} ->
+  Poly (bires_ref a b) = (-1) ^+ ((size a).-1 * (size b).-1) * resultant (BP a) (BP b).
+Proof. exact: bires_ref_resultant. Qed.
+Print Assumptions Base_bires_ref_resultant.
+
+Theorem Base_bires_ref_bires : forall a b : seq (seq Z),
+  Poly (last [::] a) != 0 :> {poly Z} -> Poly (last [::] b) != 0 :> {poly Z} -> bires_ref a b = bires a b.
+Proof. exact: bires_ref_bires. Qed.
+Print Assumptions Base_bires_ref_bires.
+
 (* G3: annihilating polynomials: non-zero, and vanish at the sum / product / power of roots, in every real closed field *)
 Theorem Base_ann_add_neq0 : forall p q : seq Z,
   Poly p != 0 :> {poly Z} -> Poly q != 0 :> {poly Z} -> Poly (ann_add p q) != 0 :> {poly Z}.
